@@ -223,6 +223,7 @@ macro_rules! wide_harness {
                                     let want: Vec<Id> = self.m.ents.iter().filter(|(_, r)| r[p].is_some()).map(|(i, _)| *i).collect();
                                     if visited != want {
                                         chk.fail(Prop::C01, "mut-query-visited-the-wrong-entities", format!("component position {}: visited {:?}, model {:?}", p, visited, want));
+                                        chk.fail(Prop::C03, "mut-query-visited-the-wrong-entities", format!("component position {}: visited {:?}, model {:?}", p, visited, want));
                                     }
                                     // the same selection through a Has filter and through Not<Has>
                                     let mut has: Vec<Id> = self.w.query(Query::<Views!(entity::Identifier), $crate::brood::query::filter::Has<$t>>::new()).iter.map(|result!(id)| idp(id)).collect();
@@ -232,6 +233,7 @@ macro_rules! wide_harness {
                                     let wantnot: Vec<Id> = self.m.ents.iter().filter(|(_, r)| r[p].is_none()).map(|(i, _)| *i).collect();
                                     if has != want || hasnot != wantnot {
                                         chk.fail(Prop::C01, "filtered-query-selected-the-wrong-entities", format!("component position {}: Has {:?} / model {:?}; Not<Has> {:?} / model {:?}", p, has, want, hasnot, wantnot));
+                                        chk.fail(Prop::C03, "filtered-query-selected-the-wrong-entities", format!("component position {}: Has {:?} / model {:?}; Not<Has> {:?} / model {:?}", p, has, want, hasnot, wantnot));
                                     }
                                 }
                                 i += 1;
